@@ -313,6 +313,37 @@ func TestZZBoundedC03(t *testing.T) {
 					fail(degree, seq, err)
 					return false
 				}
+				// every key re-stored (replaced) in the tree built by this insertion order: the new item must be the
+				// one found afterwards, whatever node splits the descent performs; done on a clone, which also must
+				// leave the original untouched
+				base := New(degree)
+				bm := model{}
+				for i, k := range perm {
+					base.ReplaceOrInsert(vItem{k, i + 1})
+					bm[k] = i + 1
+				}
+				for r := 0; r < P; r++ {
+					stats.Sequences++
+					c := base.Clone()
+					cm := model{}
+					for k, v := range bm {
+						cm[k] = v
+					}
+					old := c.ReplaceOrInsert(vItem{r, 1000 + r})
+					if old == nil || old.(vItem) != (vItem{r, bm[r]}) {
+						fail(degree, append(seq[:P:P], op{true, r}), fmt.Errorf("replace of %d returned %v, stored item was %v", r, old, vItem{r, bm[r]}))
+						return false
+					}
+					cm[r] = 1000 + r
+					if err := checkTree(c, cm, P); err != nil {
+						fail(degree, append(seq[:P:P], op{true, r}), fmt.Errorf("after replacing %d: %v", r, err))
+						return false
+					}
+				}
+				if err := checkTree(base, bm, P); err != nil {
+					fail(degree, seq[:P], fmt.Errorf("original changed by writes to its clones: %v", err))
+					return false
+				}
 				return true
 			}
 			for j := i; j < P; j++ {
